@@ -829,6 +829,33 @@ PROPS["C11"] = {
     ],
 }
 
+# ---- C08 after follow-up 2 of unit cfgbuild: termination + closed form ----------------------------------------------
+PROPS["C08"]["level_text"] = PROPS["C08"]["level_text"] + (
+    " Follow-up: TERMINATION of the worklist loop add_jump_and_call_edges is proved (measure: number of (block, function) pairs of the finite universe blocks x "
+    "functions not yet registered, then worklist length; every loop of the 17 extracted functions now has a decreases). CLOSED FORM of the final graph, from the "
+    "program alone: the registered pairs are exactly the least set P containing every (block, function listing it) and closed under 'target / hint / return "
+    "target named by a jump of the pair's block, same function'; the graph has one BlkStart node, one BlkEnd node and one Block edge per pair of P and no other "
+    "block nodes or Block edges; its non-Block edges, as labelled edges (node weights at both ends, independent of numbering), are exactly the property's edges "
+    "of each pair of P -- each pair enumerated once -- followed by the return linkage (per returning BlkEnd node and registered return address of its function "
+    "a CallReturn node with CrCallStub, CrReturnStub, ReturnCombine), and nothing else.")
+PROPS["C08"]["level_note"] = PROPS["C08"]["level_note"].replace(
+    "Partial correctness: termination of the worklist loop add_jump_and_call_edges is NOT proved (exec_allows_no_decreases_clause). The global statement is "
+    "cfg_global (unique pairs; final edge sequence = Block edges of program positions ++ the per-round contributions, each BlkEnd in exactly one round, ++ "
+    "return linkage), NOT a closed-form multiset comprehension over (pair, jump index, hint index): that flattening lemma is missing; the bounded twin "
+    "c08.cfg compares the labelled node/edge multisets of the real get_program_cfg with a declarative reference (6006 programs).",
+    "Total correctness up to the trusted shims. The closed form is stated over SEQUENCES in the builder's enumeration order (processing order of P, node order of "
+    "returning blocks), not as a Seq::to_multiset equation; the return addresses inside the return-linkage part are those of the state after the rounds, not yet "
+    "re-expressed from the program ('one per processed direct call with a return target to a function with a first block'); CallSource / CallReturn nodes are "
+    "characterised through the labelled edges they occur in. The bounded twin c08.cfg compares the labelled node / edge multisets of the real get_program_cfg "
+    "with a declarative reference (6006 programs) and covers these last steps in bounded form.")
+PROPS["C08"]["not_covered"] = [
+    "closed form stated over sequences in enumeration order, not as a multiset equation; return addresses of the return linkage not re-expressed from the program; multiset of CallSource / CallReturn nodes only via the labelled edges (bounded twin c08.cfg)",
+    "node / edge order (BTreeMap iteration order unspecified)",
+    "petgraph u32 capacity panics",
+    "body of Program::find_block (iterator chain; @nobody)",
+    "ToJsonCompact, Display, HasCfg",
+]
+
 
 def twin_for(unit, label):
     for frag, twin in TWINS.get(unit, []):
